@@ -272,7 +272,7 @@ func c19r4(w *World, rr *RuleRun) {
 		}
 		// and nobody else calls reply / sendError
 		for _, e := range w.CG.CallersOf(obj) {
-			if !within(e.Caller, hq) {
+			if !w.withinUp(e.Caller, hq) {
 				rr.At(w, e.Site, shortFuncName(obj)+" called only from handleQuery", false, "caller: "+shortFuncName(e.Caller))
 			}
 		}
@@ -326,7 +326,7 @@ func c19r4(w *World, rr *RuleRun) {
 	tqs := w.P.Func("(*Server).transactionQuerySender")
 	query := w.P.Func("(*Server).Query")
 	for _, e := range w.CG.CallersOf(tqs) {
-		rr.At(w, e.Site, "transactionQuerySender called only from Query", within(e.Caller, query), "caller: "+shortFuncName(e.Caller))
+		rr.At(w, e.Site, "transactionQuerySender called only from Query", w.withinUp(e.Caller, query), "caller: "+shortFuncName(e.Caller))
 		b := w.TS.Of(callInstrCommon(e.Site).Args[2])
 		rr.At(w, e.Site, "query bytes come from makeQueryBytes", isCall(b, mqb), "bytes: "+b.String())
 	}
@@ -335,7 +335,7 @@ func c19r4(w *World, rr *RuleRun) {
 	if len(a.sites) > 0 {
 		sendFn := enclosingNamed(a.sites[0].Parent())
 		for _, e := range w.CG.CallersOf(sendFn) {
-			ok := within(e.Caller, reply) || within(e.Caller, sendError) || within(e.Caller, tqs)
+			ok := w.withinUp(e.Caller, reply) || w.withinUp(e.Caller, sendError) || w.withinUp(e.Caller, tqs)
 			rr.At(w, e.Site, "send routine called only by reply, sendError and the query sender", ok, "caller: "+shortFuncName(e.Caller))
 		}
 	}
